@@ -149,8 +149,6 @@ def mutants(args):
                 print("    %s %s %.0fs %s" % (prop, "violation" if hit else "quiet", dt, first))
         finally:
             drop_scratch(d)
-    # evidence files written by these runs describe the mutated tree: restore them from the last commit
-    sh(["git", "-C", VERIF, "checkout", "--", "evidence"])
     # record what was observed (merged with earlier results for mutants not run this time)
     path = os.path.join(VERIF, "seeded", "RESULTS.json")
     old = json.load(open(path)) if os.path.exists(path) else {}
